@@ -156,6 +156,11 @@ class Gen:
         if self.coin(0.08):
             k = r.randrange(len(cols))
             cols[k] = cols[k] + r.choice([" -- a note\n", " /* a note */", " --1\n", " /* multi\nline */ ", " -- it''s, (odd) \"chars\"\n"])
+        if seq % 37 == 11:
+            # a block comment that begins "/*/": it ends at the NEXT "*/", not at its own second character
+            # (placed by seq, not by the PRNG: the rest of the corpus stays what it was)
+            k = seq % len(cols)
+            cols[k] = cols[k] + " /*/ , zz_hidden INTEGER /*/"
         tcons = []
         if not have_pk and self.coin(0.5):
             tcons.append("PRIMARY KEY (" + ", ".join(self.indexed_cols(names)) + ")" + (" ON CONFLICT REPLACE" if self.coin(0.02) else ""))
